@@ -26,6 +26,7 @@ EXPLANATION = (
     " (R12) no transforming method returns the receiver itself on any path. " 
     "NOT decided: that the transformed schema accepts exactly the transformed "
     "frames; inverse laws on values."
+    ' (R13) a transformation that re-keys the columns mapping with keys computed from a caller-supplied mapping (rename_columns) raises, before the comprehension, under a test for repeated values of that mapping - otherwise two columns given one new name collapse silently.'
 )
 LEVEL_RULE = "one obligation per (method) / (constructor parameter) / (constructor call, attribute) / raise"
 FLOORS = {"R1": 10, "R2": 28, "R3": 20, "R4": 6, "R5": 10, "R6": 2, "R7": 1, "R8": 1, "R9": 2, "R10": 1, "R11": 1, "R12": 8}
@@ -528,8 +529,61 @@ def r12_fresh_result(ctx):
         raise AnalysisError(f"transformation returns found: {n}")
 
 
+def r13_computed_keys_are_distinct(ctx):
+    """A transformation that re-keys the columns mapping with keys *computed from a caller-supplied mapping* (rename: the
+    new name of each column) can map two columns onto one key; the dict comprehension then silently keeps the last one
+    and a column disappears from the schema - an invalid request has to raise instead.  Decided: before such a
+    comprehension the function raises under a test that looks for repeated values of that mapping (len(set(...)) against
+    len(...), .count(...), Counter, duplicated)."""
+    from ..cfg import cfg_of
+    from ..util import Expander
+    n = 0
+    m = ctx.ix.module("pandera/api/dataframe/container.py")
+    for f in m.all_functions:
+        if f.cls is None or f.name.startswith("_"):
+            continue
+        params = set(f.params) - {"self", "cls"}
+        comps = []
+        for x in walk_no_nested(f.node):
+            if isinstance(x, ast.DictComp) and not isinstance(x.key, ast.Name):
+                used = {y.id for y in ast.walk(x.key) if isinstance(y, ast.Name)} & params
+                iter_cols = any(isinstance(y, ast.Attribute) and y.attr == "columns" for g in x.generators for y in ast.walk(g.iter))
+                if used and iter_cols:
+                    comps.append((x, sorted(used)[0]))
+        if not comps:
+            continue
+        cfg = cfg_of(f.node)
+        ex = Expander(f.node)
+        for dc, mapping in comps:
+            n += 1
+            ctx.touched(f)
+            st = dc
+            while not isinstance(st, ast.stmt):
+                st = st._parent
+            target = cfg.node_of(st)
+            guarded = False
+            for r in function_stmts(f):
+                if not isinstance(r, ast.Raise):
+                    continue
+                rn = cfg.node_of(r)
+                if rn is None or target is None or target.id not in cfg.reachable(cfg.entry.id):
+                    continue
+                for t, _ in cfg.guards(rn.id):
+                    texts = [txt(t)] + [txt(d) for d in ex.closure(t)]
+                    blob = " ".join(texts)
+                    if mapping in blob and (("set(" in blob and "len(" in blob) or ".count(" in blob or "Counter(" in blob or "duplicated" in blob or "nunique" in blob):
+                        guarded = True
+            ctx.ob("R13", f, f"{f.short}: the keys computed from `{mapping}` are checked to be distinct before the columns are re-keyed", guarded,
+                   "a repeated target raises" if guarded else
+                   f"`{txt(dc)[:60]}` re-keys the columns with names taken from `{mapping}` and nothing rejects a repeated name: rename_columns({{'a': 'x', 'b': 'x'}}) returns a schema "
+                   "without column a (last writer wins) instead of raising SchemaInitError", f.loc(dc))
+    if n < 1:
+        raise AnalysisError("dataframe/container.py: no transformation re-keys the columns from a caller-supplied mapping")
+
+
 def run(ctx):
     r12_fresh_result(ctx)
+    r13_computed_keys_are_distinct(ctx)
     r11_rename_reaches_unique(ctx)
     r9_set_name_scope(ctx)
     r10_names_by_none_only(ctx)
